@@ -139,7 +139,14 @@ pub fn gen_valid_def(g: &mut Gen, name: &str, mel: bool, prior: &[String]) -> De
 			// repr(transparent): exactly one non-zero-sized field, plain, plus zero-sized companions
 			let inner = g.pick(&["[u8; 4]", "u64", "Box<u32>", "[u16; 3]", "Vec<u8>", "Box<[u8; 4]>"]).to_string();
 			let inner = if mel && (inner.contains("Vec") || inner.contains("Box<[")) { "[u8; 4]".to_string() } else { inner };
-			fields = vec![FieldDef { ty: inner, mode: Mode::Plain, extra_attrs: vec![] }];
+			// the in-place decode path must not be taken when the field has its own representation
+			let (inner, mode) = match g.below(5) {
+				0 => ("u32".to_string(), Mode::Compact),
+				1 => ("u64".to_string(), Mode::EncodedAs("Compact<u64>".into(), "Compact<u64>".into())),
+				2 => ("CW".to_string(), Mode::Compact),
+				_ => (inner, Mode::Plain),
+			};
+			fields = vec![FieldDef { ty: inner, mode, extra_attrs: vec![] }];
 			for _ in 0..g.below(3) {
 				fields.push(FieldDef { ty: g.pick(&["PhantomData<u8>", "()"]).to_string(), mode: Mode::Plain, extra_attrs: vec![] });
 			}
